@@ -16,6 +16,85 @@ FUNCS = ['bech32_polymod', 'bech32_hrp_expand', 'bech32_verify_checksum', 'bech3
 GEN = [0x3b6a57b2, 0x26508e6d, 0x1ea119fa, 0x3d4233dd, 0x2a1462b3]
 
 
+def _skeleton(node):
+    """The constant frame of a pattern expression: '...%s...' % x, f'...{x}...', a + b, with inserted text replaced by 'a'."""
+    import ast as _ast
+    import re as _re
+    if isinstance(node, _ast.Constant) and isinstance(node.value, str):
+        return node.value
+    if isinstance(node, _ast.BinOp) and isinstance(node.op, _ast.Mod):
+        left = _skeleton(node.left)
+        return _re.sub(r'%(\([^)]*\))?[-#0 +]*\d*(\.\d+)?[sdrxXc]', 'a', left) if isinstance(left, str) else None
+    if isinstance(node, _ast.BinOp) and isinstance(node.op, _ast.Add):
+        a, b = _skeleton(node.left), _skeleton(node.right)
+        return (a if isinstance(a, str) else 'a') + (b if isinstance(b, str) else 'a') if (isinstance(a, str) or isinstance(b, str)) else None
+    if isinstance(node, _ast.JoinedStr):
+        return ''.join(v.value if isinstance(v, _ast.Constant) else 'a' for v in node.values)
+    if isinstance(node, _ast.Call) and isinstance(node.func, _ast.Attribute) and node.func.attr == 'format':
+        base = _skeleton(node.func.value)
+        return _re.sub(r'\{[^{}]*\}', 'a', base) if isinstance(base, str) else None
+    return None
+
+
+def check_regex_anchors(ctx, rule, modules):
+    p = ctx.p
+    # a regular expression that gates a whole string must be anchored at the very end: `$` also matches in front of a
+    # trailing line feed, so `^...$` with match()/search() accepts "<valid string>\n" (only \Z or fullmatch() do not)
+    with ctx.obligation(rule, 'regular expressions that gate whole strings', None, modules[0].relpath) as ob:
+        import ast as _ast
+        import re as _re
+        n_re = 0
+        for mod in modules:
+            consts = {}
+            for nm, nodes in mod.assigns.items():
+                v_ = nodes[-1]
+                if isinstance(v_, _ast.Call) and _ast.unparse(v_.func) in ('re.compile', 'compile') and v_.args:
+                    consts[nm] = (v_.args[0], v_)
+            for n in _ast.walk(mod.tree):
+                if not isinstance(n, _ast.Call):
+                    continue
+                f_ = _ast.unparse(n.func)
+                pat = None
+                if f_ in ('re.match', 're.search') and n.args:
+                    pat = n.args[0]
+                elif isinstance(n.func, _ast.Attribute) and n.func.attr in ('match', 'search') and isinstance(n.func.value, _ast.Name) \
+                        and n.func.value.id in consts:
+                    pat = consts[n.func.value.id][0]
+                if pat is None:
+                    continue
+                n_re += 1
+                try:
+                    src = _ast.literal_eval(pat)
+                except Exception:
+                    # concatenated / formatted pattern: evaluate the constant pieces
+                    try:
+                        ev_ = Evaluator(p, 'ecdsa')
+                        from ..evalr import Frame
+                        t_ = ev_.expr(pat, Frame(None, {}, Facts(), mod, None, 0))
+                        src = t_[1] if T.is_const(t_) else None
+                    except Exception:
+                        src = None
+                if not isinstance(src, (str, bytes)):
+                    src = _skeleton(pat)       # constant frame of a formatted / concatenated pattern (inserted text as 'a')
+                if not isinstance(src, (str, bytes)):
+                    ob.undecided('regular expression at %s:%d is not a constant' % (mod.relpath, n.lineno))
+                    continue
+                try:
+                    parsed = _re._parser.parse(src)
+                except Exception:
+                    ob.undecided('regular expression at %s:%d does not parse' % (mod.relpath, n.lineno))
+                    continue
+                items = list(parsed)
+                last = items[-1] if items else None
+                ends_soft = last is not None and str(last[0]) == 'AT' and str(last[1]) == 'AT_END'
+                ob.require(not ends_soft, 'the pattern %r is anchored with `$`, which also matches before a trailing line feed: a valid '
+                           'string followed by "\\n" is accepted (use \\Z or fullmatch)' % (src if len(src) < 60 else src[:57] + '...'),
+                           '%s:%d' % (mod.relpath, n.lineno))
+        if n_re == 0:
+            ob.evaluations += 1
+            ob.note('no regular expression gates a string in %s' % ', '.join(m_.relpath for m_ in modules))
+
+
 def run(ctx):
     p = ctx.p
     ctx.explanation = (
@@ -67,6 +146,7 @@ def run(ctx):
             ob.require(redecoded or bounded, 'encode() returns a string that was neither re-validated by decode() nor bounded to 90 '
                        'characters: with a long prefix it hands out an address that every decoder (its own included) rejects',
                        fe.where, found=[T.show(k, maxdepth=3) for k in known][:6])
+    check_regex_anchors(ctx, 'C11.REGEX', [mi, p.get_module('helper')])
     with ctx.obligation('C11.NOEXTRA', 'bech32 module surface', None, mi.relpath) as ob:
         ob.require(set(mi.functions) >= set(FUNCS), 'the module defines every reference function', mi.relpath,
                    expected=sorted(FUNCS), found=sorted(mi.functions))
